@@ -55,6 +55,7 @@ type FuncContract struct {
 	depth    int  // inline depth override
 	maxPaths int
 	reveals  []string
+	splits   []*Clause // case splits at entry: expr over the listed constant values (exprs)
 }
 
 type SpecFunc struct {
@@ -234,7 +235,7 @@ func parseSpecExpr(text string) (ast.Expr, error) {
 	return e, nil
 }
 
-var kwRe = regexp.MustCompile(`^(macro|chan|gset|func|iface|spec|lemma|ghost|import|requires|ensures|modifies|inline|trusted|noverify|pure|fresh|loop|let|props|opaque|inlines|panics_when|depth|maxpaths|reveal)\b`)
+var kwRe = regexp.MustCompile(`^(macro|chan|gset|func|iface|spec|lemma|ghost|import|requires|ensures|modifies|inline|trusted|noverify|pure|fresh|loop|let|props|opaque|inlines|panics_when|depth|maxpaths|reveal|split)\b`)
 
 // ParseContractFile extracts contracts from the //@ lines of a file.
 func ParseContractFile(pkgPath, file string, src []byte, pc *PkgContracts) error {
@@ -471,6 +472,24 @@ func ParseContractFile(pkgPath, file string, src []byte, pc *PkgContracts) error
 				for _, p := range strings.Fields(rest) {
 					cur.inlines = append(cur.inlines, strings.Trim(p, ","))
 				}
+			case "split":
+				// split <expr> : v1, v2, ...
+				i := strings.LastIndex(rest, ":")
+				if i < 0 {
+					return fmt.Errorf("%s:%d: split expr : v1, v2, ...", file, it.line)
+				}
+				c, err := mk("split", strings.TrimSpace(rest[:i]))
+				if err != nil {
+					return err
+				}
+				for _, v := range splitTop(rest[i+1:], ',') {
+					e, err := parser.ParseExpr(strings.TrimSpace(v))
+					if err != nil {
+						return fmt.Errorf("%s:%d: %v", file, it.line, err)
+					}
+					c.exprs = append(c.exprs, e)
+				}
+				cur.splits = append(cur.splits, c)
 			case "reveal":
 				for _, p := range strings.Fields(rest) {
 					cur.reveals = append(cur.reveals, strings.Trim(p, ","))
@@ -558,7 +577,7 @@ type Macro struct {
 var macroRe = regexp.MustCompile(`^(\w+)\(([^)]*)\)\s*=\s*(.*)$`)
 
 func expandMacros(text string, macros map[string]*Macro) string {
-	for iter := 0; iter < 20; iter++ {
+	for iter := 0; iter < 3000; iter++ {
 		changed := false
 		for name, m := range macros {
 			re := regexp.MustCompile(`\b` + name + `\(`)
